@@ -130,3 +130,13 @@ reg('C07', 'fault_enumeration',
     'progress (20 000 + 100 executed cardutil lines per input byte), not wall-clock.',
     'Bounded progress stands in for termination (worst legitimate path measured < 10 lines/byte). vmon/ref/codec.py lays out the bases. '
     'A hang inside C code that emits no line events would only trip the per-shard wall-clock watchdog (inconclusive).')
+
+reg('C08', 'fault_enumeration',
+    'runtime monitor: accept/reject decision and returned dict of real loads bracketed by two independent reference decoders (strict subset, lenient superset) over enumerated neighbours of valid messages and constructed overlaps',
+    'For 160 (quick) / 3 000 (thorough) valid bases (packaged, variant and generated configurations; latin_1, cp500, cp864, '
+    'ascii; both bitmaps): every length-prefix digit replaced by sign/space/underscore/letter/every digit/non-ASCII digits, '
+    'every prefix rewritten (negative spellings, 0, one short, one over, message length, maximum), each of the 128 bitmap bits '
+    'flipped, every variable element emptied (must still be accepted), trims/extensions, multi-point mutation; plus thousands of '
+    'constructed messages that a negative-length-tolerant decoder would tile exactly. strict accepts => must accept with that '
+    'dict; lenient rejects => must reject; in between, accepted readings must equal the lenient element values.',
+    'Trusts vmon/ref/codec.py strict/lenient decoders. A non-library exception counts as a rejection here (reported by C07).')
